@@ -742,3 +742,12 @@ func isStringType(t types.Type) bool {
 	b, ok := t.Underlying().(*types.Basic)
 	return ok && b.Info()&types.IsString != 0
 }
+
+// instrsDeep visits the instructions of fn and of the closures it creates (recursively): a body wrapped into
+// `fd.locked(func() { … })` is still that method's body.
+func instrsDeep(fn *ssa.Function, visit func(ssa.Instruction)) {
+	instrs(fn, visit)
+	for _, a := range fn.AnonFuncs {
+		instrsDeep(a, visit)
+	}
+}
